@@ -212,11 +212,13 @@ def register(R):
 
   R.add(Contract(
       f'{TR}::TreeMapView.__getitem__', P, variant='single', types=dict(self='TreeMapView', keys='keypath'), ret='tree',
+      when=lambda it, a, k: isinstance(a[1], VKeyPath),
       ensures=['result is rd_path(self.data, keys)', 'rdok_path(self.data, keys)'],
       raises_ensures={e: ['not rdok_path(self.data, keys)'] for e in ('KeyError', 'IndexError', 'TypeError')},
       bounded='bounded_tree_laws', note='a Key is one path, never a multi-key'))
   R.add(Contract(
       f'{TR}::TreeMapView.__getitem__', P, variant='multi', types=dict(self='TreeMapView', keys='tuple[keypath,keypath,keypath]'), ret='tuple[tree,tree,tree]',
+      when=lambda it, a, k: isinstance(a[1], VTuple) and len(a[1].items) == 3,
       ensures=['result[0] is rd_path(self.data, keys[0])', 'result[1] is rd_path(self.data, keys[1])', 'result[2] is rd_path(self.data, keys[2])',
                'rdok_path(self.data, keys[0]) and rdok_path(self.data, keys[1]) and rdok_path(self.data, keys[2])'],
       raises_ensures={e: ['not (rdok_path(self.data, keys[0]) and rdok_path(self.data, keys[1]) and rdok_path(self.data, keys[2]))']
@@ -226,7 +228,7 @@ def register(R):
   # ---- copying set through the public API ------------------------------------------------------------------
   SET_REQ = ['region_ok(S0)', 'in_region(S0, self.data)']
   R.add(Contract(
-      f'{TR}::TreeMapView.set', P, variant='single',
+      f'{TR}::TreeMapView.set', P, variant='single', when=lambda it, a, k: isinstance(a[1], VKeyPath),
       types=dict(self='TreeMapView', keys='keypath', values='tree', in_place='bool'), ret='TreeMapView',
       ghost={'S0': 'region'}, site_ghost=region, modifies=['theap'],
       requires=SET_REQ + ['not in_place', 'in_region(S0, values)'], may_raise=RAISES,
@@ -236,7 +238,7 @@ def register(R):
                ' is_new(result.data) and t_kind(result.data) == t_kind(self.data) and others_shared(result.data, self.data, head(keys)))'],
       bounded='bounded_tree_laws', note='a copying set returns a new view; the viewed data of the receiver is the same untouched object'))
   R.add(Contract(
-      f'{TR}::TreeMapView.set', P, variant='two-keys',
+      f'{TR}::TreeMapView.set', P, variant='two-keys', when=lambda it, a, k: isinstance(a[1], VTuple) and len(a[1].items) == 2,
       types=dict(self='TreeMapView', keys='tuple[keypath,keypath]', values='tuple[tree,tree]', in_place='bool'), ret='TreeMapView',
       ghost={'S0': 'region'}, site_ghost=region, modifies=['theap'],
       requires=SET_REQ + ['not in_place', 'in_region(S0, values[0])', 'in_region(S0, values[1])'], may_raise=RAISES,
